@@ -65,7 +65,7 @@ MSG_RE = re.compile(r"^\nparse error near (\S+) \(line (\d+) symbol (\d+) - line
 def gen_grammars(ctx, n, style="mixed"):
     gs = []
     for i in range(n):
-        gg = P.GGen(ctx.rng) if i % 2 == 0 else P.GGenBT(ctx.rng)
+        gg = [P.GGen, P.GGenBT, P.GGenSW][i % 3](ctx.rng)
         rules = gg.grammar()
         gs.append(dict(id="g%d" % i, rules=rules, nact=gg.nact))
     return gs
